@@ -342,8 +342,10 @@ def run(prop, tier, seed):
             d["classes"][k] = d["classes"].get(k, 0) + v
         d["discarded"] += s["discarded"]
         d["excluded_known"] += s["excluded_known"]
-        if len(d["samples"]) < 6:
-            d["samples"].extend(s["samples"][-3:] if r["shard"] else s["samples"][:2] + s["samples"][-2:])
+        if len(d["samples"]) < 8:
+            # the 1st, 2nd, 4th, 8th ... case of a shard were kept: Hypothesis starts with the simplest case, so show one early
+            # case and the later (typical) ones
+            d["samples"].extend(s["samples"][-3:] if r["shard"] else s["samples"][1:2] + s["samples"][-3:])
         for k, v in s["metrics"].items():
             if k not in d["metrics"] or v > d["metrics"][k]:
                 d["metrics"][k] = v
@@ -383,7 +385,7 @@ def run(prop, tier, seed):
     subs = {}
     for name, d in per_sub.items():
         sc = sc_by_name[name]
-        for smp in d["samples"][:3]:
+        for smp in d["samples"][:4]:
             samples.append({"subcheck": name, "case": smp})
         subs[name] = {"evaluations": d["evaluations"], "distinct_nontrivial": len(d["nontrivial"]), "rule": sc.rule,
                       "classes": dict(sorted(d["classes"].items())), "discarded_outside_domain": d["discarded"],
